@@ -34,9 +34,13 @@ type Style struct {
 	RevAttrs  bool // attributes written in reverse order
 	EmptyPair bool // <x></x> instead of <x/>
 	Decl      bool // XML declaration present
+	BOM       bool // the document starts with a UTF-8 byte order mark
 }
 
 func (s Style) String() string {
+	if s.BOM {
+		return fmt.Sprintf("ns%d.indent=%v.revattrs=%v.emptypair=%v.decl=%v.bom", s.NS, s.Indent, s.RevAttrs, s.EmptyPair, s.Decl)
+	}
 	return fmt.Sprintf("ns%d.indent=%v.revattrs=%v.emptypair=%v.decl=%v", s.NS, s.Indent, s.RevAttrs, s.EmptyPair, s.Decl)
 }
 
@@ -50,6 +54,15 @@ func AllStyles() []Style {
 					out = append(out, Style{NS: ns, Indent: in, RevAttrs: ra, EmptyPair: ep, Decl: ns != 1})
 				}
 			}
+		}
+	}
+	// a byte order mark in front of the prefixed styles
+	n := len(out)
+	for i := 0; i < n; i++ {
+		if out[i].NS == 0 {
+			s := out[i]
+			s.BOM = true
+			out = append(out, s)
 		}
 	}
 	return out
@@ -69,6 +82,9 @@ func esc(s string, attr bool) string {
 // Render writes the tree in the given style.
 func Render(root *El, st Style) []byte {
 	var sb strings.Builder
+	if st.BOM {
+		sb.WriteString("\xef\xbb\xbf")
+	}
 	if st.Decl {
 		sb.WriteString(`<?xml version="1.0" encoding="utf-8" ?>`)
 		if st.Indent {
